@@ -1168,6 +1168,18 @@ CORPUS = [
            "  let v1 = ((a1 * 20) + 15)\n  let v2 = (v0 * v1)\n  let v3 = $max(v0, v1, 35)\n"
            "  let v4 = ((a0 > 5) ? v0 : v1)\n",
     DYN + "  let v0 = (dyn + 1)\n  let v1 = $max(dyn, 3)\n  let v2 = (dyn * a0)\n",
+    # F8 (fixed: $upper_bound/$lower_bound of an infinite bound is the unbounded annotation,
+    # no "constant infinity"); a revert raises ValueError / TypeError / AssertionError
+    DYN + "  let v0 = ($upper_bound(dyn) * 2)\n",
+    DYN + "  let v0 = ($upper_bound(dyn) + a0)\n",
+    DYN + "  let v0 = ($upper_bound(dyn) - $upper_bound(dyn))\n",
+    DYN + "  let v0 = ((a0 > 3) ? $upper_bound(dyn) : a0)\n",
+    DYN + "  let v0 = ($lower_bound((dyn - 3)) * 2)\n  let v1 = $max($upper_bound(dyn), a0)\n",
+    # constant_value of $upper_bound/$lower_bound (fixed: read from the annotation); a revert
+    # raises KeyError.  The third one distinguishes "value of the argument" from "inferred bound".
+    HEAD + "bits Foo:\n  0 [+8] UInt a0\n  let v0 = ($upper_bound(3) == 3)\n",
+    HEAD + "bits Foo:\n  0 [+8] UInt a0\n  let v0 = (($lower_bound((a0 + 1)) == 1) && ($upper_bound((a0 * 2)) == 510))\n",
+    HEAD + "bits Foo:\n  0 [+8] UInt a0\n  let v0 = ($upper_bound(((false && (a0 == 1)) ? a0 : 3)) == 255)\n",
 ]
 
 
